@@ -68,3 +68,22 @@ def as_form(v, form):
         return dt(v) if info.min <= v <= info.max else v
     x = dt(v)
     return x if float(x) == float(v) else v
+
+
+def prescore(inds, minimize, key=lambda g: g[1]):
+    """The individuals were scored before under ANOTHER problem (an earlier stage, a validation set,
+    co-evolution): the opposite direction and other values. Returns that problem, which the caller keeps
+    alive (fitness stores are weak-keyed)."""
+    from geneticengine.evaluation.sequential import SequentialEvaluator
+    from geneticengine.problems import SingleObjectiveProblem
+
+    def other_value(p):
+        v = key(p)
+        try:
+            return 1000.0 - 3.0 * float(v)
+        except Exception:  # noqa: BLE001
+            return 0.0
+
+    other = SingleObjectiveProblem(other_value, minimize=not minimize)
+    SequentialEvaluator().evaluate(other, list(inds))
+    return other
